@@ -147,6 +147,11 @@ class SArr:
         axes = [Ax("aff", 0, 1, k) for k in range(len(shape))]
         return SArr(buf, shape, axes, dtype, writeable)
 
+    def frozen(self):
+        """read-only view bound to the buffer's *current* contents (derived arrays are computed eagerly
+        by NumPy, so they must not see later writes to their operands)"""
+        return SArr(SBuf(self.buf.fn, self.buf.shape, self.buf.name + "'"), self.shape, self.axes, self.dtype, writeable=False)
+
     # ---- basic attributes
     @property
     def ndim(self):
@@ -334,7 +339,7 @@ class SArr:
                 else:
                     raise RaiseSig(ValueError("could not broadcast input array from shape "
                                               "into shape (symbolic)"))
-            src = value
+            src = value.frozen()
 
             def val_at(vidx):
                 sidx = []
@@ -348,8 +353,6 @@ class SArr:
         old_fn = buf.fn
         axes = list(self.axes)
         shape = self.shape
-        if isinstance(value, SArr) and value.buf is buf:
-            raise Unsupported("overlapping self-assignment")
 
         def new_fn(*b):
             conds = []
@@ -424,7 +427,7 @@ class SArr:
         if not c.interp.truth(sym_prod(shape) == self.size):
             raise RaiseSig(ValueError("cannot reshape array"))
         c.trust("ndarray.reshape: row-major (C) / column-major (F) re-linearisation")
-        src = self
+        src = self.frozen()
         old_shape = self.shape
         new_shape = tuple(shape)
 
@@ -442,12 +445,12 @@ class SArr:
         dtype = np.dtype(dtype)
         if not np.can_cast(self.dtype, dtype, casting=casting):
             raise RaiseSig(TypeError(f"Cannot cast array data from {self.dtype} to {dtype} according to the rule {casting!r}"))
-        src = self
+        src = self.frozen()
         conv = elem_cast(self.dtype, dtype)
         return SArr.from_fn(lambda *idx: conv(src.elem(*idx)), self.shape, dtype)
 
     def copy(self):
-        src = self
+        src = self.frozen()
         return SArr.from_fn(lambda *idx: src.elem(*idx), self.shape, self.dtype)
 
     def view(self, *a, **k):
@@ -471,8 +474,9 @@ class SArr:
 
     # ---- element-wise arithmetic
     def _ew(self, o, f, out_dtype=None):
-        a = self
+        a = self.frozen()
         if isinstance(o, SArr):
+            o = o.frozen()
             nd = max(a.ndim, o.ndim)
             sa = (1,) * (nd - a.ndim) + a.shape
             so = (1,) * (nd - o.ndim) + o.shape
@@ -505,6 +509,8 @@ class SArr:
     def __add__(self, o): return self._ew(o, lambda x, y: _arith(self.dtype, x, y, "+"))
     def __radd__(self, o): return self._ew(o, lambda x, y: _arith(self.dtype, y, x, "+"))
     def __sub__(self, o): return self._ew(o, lambda x, y: _arith(self.dtype, x, y, "-"))
+    def __rsub__(self, o): return self._ew(o, lambda x, y: _arith(self.dtype, y, x, "-"))
+    def __truediv__(self, o): return self._ew(o, lambda x, y: x / y, np.dtype(np.float64))
     def __mul__(self, o): return self._ew(o, lambda x, y: _arith(self.dtype, x, y, "*"))
     def __rmul__(self, o): return self._ew(o, lambda x, y: _arith(self.dtype, y, x, "*"))
     def __and__(self, o): return self._ew(o, lambda x, y: x & y)
